@@ -433,7 +433,7 @@ pub fn check(tier: &str) -> i32 {
     rep.assume("names are given to the encoder in the crate's escaped dotted form (RFC 6763 4.3: '\\.' and '\\\\'); what 'was added' is the label sequence an independent unescaper derives from that string");
     let menu = entry_menu();
     let m = menu.len() as u64;
-    let k = if thorough { 4 } else { 3 };
+    let k = if thorough { 5 } else { 3 };
     let per = count_seqs(m, k);
 
     let m1 = FnPart {
